@@ -233,7 +233,7 @@ func c10(r *rep.Run) {
 		max = 7
 		r.SetBudget(1800e9)
 	}
-	r.Rule = "every program up to the node bound over {int/bool constants, an ill-typed constant, one variable per leaf, + / = and or not if, s1/m1 (registered and declared stateless), a1/o1/u1 (registered, undeclared, stateful: result depends on their call ordinal; names sorting before/between/after the declared ones), boom} x 16 optimisation subsets; per program: Compile, then 3 evaluations under every binding. Oracles: no undeclared operator runs during Compile and declared ones only with a nil context; Compile never fails; under every subset the tree Dump shows is related to the source by the permitted rewrites only (fold a variable-free, all-stateless, successfully evaluating sub-tree; replace an and/or that has a deciding constant operand; flatten/permute and-or operands when those options are on; nothing at all when ConstantFolding is off) — so a failing constant sub-expression can never be folded away or turned into a compile error; every evaluation equals reference evaluation (R1) of that tree with the stateful operators' current ordinals, and the call ordinals agree afterwards — so a baked-in result, a skipped call or an extra call is visible. non-trivial = programs containing a variable-free operator application"
+	r.Rule = "every program up to the node bound over {int/bool constants, an ill-typed constant, one variable per leaf, + / = and or not if, s1/m1 (registered and declared stateless), a1/o1/u1 (registered, undeclared, stateful: result depends on their call ordinal; names sorting before/between/after the declared ones), boom} x 16 optimisation subsets; per program: Compile, then 3 evaluations under every binding. Oracles: no undeclared operator runs during Compile and declared ones only with a nil context; Compile never fails; under every subset the tree Dump shows is related to the source by the permitted rewrites only (fold a variable-free, all-stateless, successfully evaluating sub-tree; replace an and/or that has a deciding constant operand; flatten/permute and-or operands when those options are on; nothing at all when ConstantFolding is off) — so a failing constant sub-expression can never be folded away or turned into a compile error; every evaluation equals reference evaluation (R1) of that tree with the stateful operators' current ordinals, and the call ordinals agree afterwards — so a baked-in result, a skipped call or an extra call is visible. plus declaration histories: a base stateless list of 0..3 names with spare capacity 0..2 x two configs derived from it (same object / CopyConfig / NewConfig(ExtendConf)) x one name appended to each in either order; each derived config invokes at compile time only what its own owner declared. non-trivial = programs containing a variable-free operator application"
 	r.Assume = []string{"small-scope hypothesis on tree size", "the optimizer relation is checked for the ConstantFolding-only and ConstantFolding+FastEvaluation subsets; other subsets are judged behaviourally"}
 	r.Cov["bounds"] = map[string]int{"max_nodes": max}
 	progs := Programs(c10Alphabet(), []term.Ty{B, I}, max)
@@ -379,6 +379,7 @@ func c10(r *rep.Run) {
 			r.Sample(12, map[string]interface{}{"program": p.Src})
 		}
 	})
+	c10Declarations(r)
 	r.Cov["programs_completed"] = done
 	r.Cov["declared_stateless_calls_during_compile"] = compileCalls
 	r.Cov["programs_changed_by_folding(CF,CF+FE)"] = folded
@@ -416,3 +417,101 @@ func stateful(t *term.Term) bool {
 }
 
 var _ = eval.Dump
+
+// c10Declarations: WHICH operators a config lists as stateless, when the list
+// was built through the configuration API: a base list (0..3 names, spare
+// capacity 0..2) x two configs derived from it (the same object, CopyConfig,
+// NewConfig(ExtendConf)) x one name appended to each derived list in either
+// order. Each derived config then compiles a program that applies every
+// registered operator to constants: exactly the operators its OWN owner
+// declared run during Compile, and the others run at every evaluation.
+func c10Declarations(r *rep.Run) {
+	ops := []string{"s1", "m1", "a1", "o1"}
+	derive := []struct {
+		name string
+		do   func(c *eval.Config) *eval.Config
+	}{
+		{"same object", func(c *eval.Config) *eval.Config { return c }},
+		{"CopyConfig", func(c *eval.Config) *eval.Config { return eval.CopyConfig(c) }},
+		{"NewConfig(ExtendConf)", func(c *eval.Config) *eval.Config { return eval.NewConfig(eval.ExtendConf(c)) }},
+	}
+	src := "(+ (s1 1) (m1 2) (a1 3) (o1 4))"
+	var histories int64
+	for baseLen := 0; baseLen <= 3; baseLen++ {
+		for spare := 0; spare <= 2; spare++ {
+			for da := range derive {
+				for db := range derive {
+					for xa := -1; xa < len(ops); xa++ {
+						for xb := -1; xb < len(ops); xb++ {
+							for order := 0; order < 2; order++ {
+								h := drive.NewHarness()
+								st := &c10state{ord: map[string]int64{}}
+								for name, fn := range st.fns() {
+									h.Register(name, fn)
+								}
+								base := h.NewConfig(nil, drive.Opt{CF: true})
+								base.StatelessOperators = make([]string, 0, baseLen+spare)
+								declared := [2]map[string]bool{{}, {}}
+								for i := 0; i < baseLen; i++ {
+									base.StatelessOperators = append(base.StatelessOperators, ops[i])
+									declared[0][ops[i]], declared[1][ops[i]] = true, true
+								}
+								cfgs := [2]*eval.Config{derive[da].do(base), derive[db].do(base)}
+								shared := cfgs[0] == cfgs[1]
+								app := func(k, x int) {
+									if x < 0 {
+										return
+									}
+									cfgs[k].StatelessOperators = append(cfgs[k].StatelessOperators, ops[x])
+									declared[k][ops[x]] = true
+									if shared {
+										declared[1-k][ops[x]] = true
+									}
+								}
+								if order == 0 {
+									app(0, xa)
+									app(1, xb)
+								} else {
+									app(1, xb)
+									app(0, xa)
+								}
+								histories++
+								for k := 0; k < 2; k++ {
+									h.CompileCalls = map[string]int{}
+									e, err := h.Compile(cfgs[k], src, 0)
+									d := map[string]interface{}{"source": src, "base_list_len": baseLen, "base_list_spare_capacity": spare,
+										"derived_by": []string{derive[da].name, derive[db].name}, "appended": []int{xa, xb}, "append_order": order, "compiling_config": k}
+									if err != nil {
+										r.Violate("compile-fails", "decl", sprintf("Compile fails: %v", err), d)
+										continue
+									}
+									for _, name := range ops {
+										ran := h.CompileCalls[name] > 0
+										if ran && !declared[k][name] {
+											r.Violate("undeclared-op-at-compile-time", "decl"+name, sprintf("operator %s was never declared stateless by the owner of this config (list built through %s + append) but Compile invoked it", name, derive[[2]int{da, db}[k]].name), d)
+										}
+									}
+									// every operator this owner did not declare runs at each evaluation
+									for round := 0; round < 2; round++ {
+										h.Reset()
+										h.Eval(e, drive.NewFetcher(h, nil, drive.Opt{}))
+										seen := map[string]bool{}
+										for _, ev := range h.Trace {
+											seen[ev.Name] = true
+										}
+										for _, name := range ops {
+											if !declared[k][name] && !seen[name] {
+												r.Violate("evaluation", "decl"+name, sprintf("operator %s is not declared stateless in this config but evaluation #%d does not call it (its result was baked in)", name, round+1), d)
+											}
+										}
+									}
+								}
+							}
+						}
+					}
+				}
+			}
+		}
+	}
+	r.Cov["declaration_histories"] = histories
+}
